@@ -1,5 +1,6 @@
 import Pymc.Proofs.FailoverDt
 import Pymc.Proofs.FailoverDemo
+import Pymc.Proofs.HashCallExamples
 /-!
 # C13 — failover: bounded probing, eviction, rerouting, recovery
 
@@ -379,5 +380,128 @@ example :
   split at h
   · cases h; decide
   · cases h
+
+/-! ## `HashClient ∘ Client`: the inner client is a real `Client`
+
+Model: `Pymc/Model/HashCall.lean` — the bookkeeping of this file composed with `Client.call`: a history is a list of
+single-key calls `(routing key, operation, script of the contacted server's connection, time)`; the state is the
+bookkeeping state plus `self.clients` (per server the client object registered for it, with its socket and pipe);
+every contact is a real `Client.call` on that object, and what it returns or raises determines the `Outcome`
+(`HashCall.outcomeOf`: returned → `ok`; `OSError` → `oserror`; any other exception → `othererror`; a
+`BaseException` escapes through both handlers whatever `ignore_exc` says — for the bookkeeping it is an `othererror`).
+The theorems below say that forgetting the inner clients (`HashCall.St.proj`) turns a composed run into a run of the
+abstract model — so everything proved above about `run` holds for the composed model, with the environment no longer
+an input but computed from the connection scripts. -/
+section hash
+
+/-- C13 (`HashClient ∘ Client`, one call).  After any composed history, for the next call: if `check_key_helper`
+rejects its key, the call raises `MemcacheIllegalInputError` and leaves the whole state alone; otherwise forgetting
+the inner clients commutes with the step — the bookkeeping state after the composed call, its result (in the
+vocabulary of the abstract model, `HashCall.absRes`) and its contact log are those of the abstract `stepOp` for the
+event `_run_cmd(rk)` at the same time, in the environment in which the server does what the inner `Client.call`
+did (at most one server is contacted, so a constant environment suffices). -/
+theorem C13_hash_step_projection (ccfg : Wire.Cfg) (c : Cfg) (route : List Srv → Key → Option Srv) (hlaw : RouteLaw route)
+    (servers : List Srv) (t0 : Time) (calls : List (HashCall.HCall Key)) (hc : HashCall.HCall Key) :
+    let st := (HashCall.runH ccfg c route (HashCall.init servers t0) 0 calls).1
+    let out := HashCall.callH ccfg c route st calls.length hc.now hc.rk hc.call hc.sc
+    (HashCall.keyOk ccfg hc.call = false → out = (st, { res := .illegalKey })) ∧
+    (HashCall.keyOk ccfg hc.call = true →
+      stepOp c route st.proj { now := hc.now, env := fun _ => HashCall.outcomeOfObs out.2, op := .runCmd hc.rk } =
+        (out.1.proj, HashCall.absRes c out.2.res, HashCall.contactsOfObs hc.now out.2)) := by
+  intro st out
+  have hcov := (HashCall.runH_proj ccfg c route hlaw (HashCall.init servers t0) 0 calls (HashCall.cover_init servers t0)).2
+  exact HashCall.callH_proj ccfg c route hlaw st calls.length hc.now hc.rk hc.call hc.sc hcov
+
+/-- C13 (`HashClient ∘ Client`, runs).  A composed run from a fresh `HashClient` is a run of the abstract model from
+`init`: the events are the calls whose key passes `check_key_helper` (`HashCall.eventsOf`: same times, same routing
+keys, `_run_cmd`, the environment of each being the outcome of its inner `Client.call`); the bookkeeping state at the
+end is the projection of the composed state, and the per-event results and contact logs are those of the composed
+observations (`HashCall.absOuts`). -/
+theorem C13_hash_projection (ccfg : Wire.Cfg) (c : Cfg) (route : List Srv → Key → Option Srv) (hlaw : RouteLaw route)
+    (servers : List Srv) (t0 : Time) (calls : List (HashCall.HCall Key)) :
+    let r := HashCall.runH ccfg c route (HashCall.init servers t0) 0 calls
+    run c route (init servers t0) (HashCall.eventsOf calls r.2) = (r.1.proj, HashCall.absOuts c calls r.2) := by
+  intro r
+  have h := (HashCall.runH_proj ccfg c route hlaw (HashCall.init servers t0) 0 calls (HashCall.cover_init servers t0)).1
+  rw [HashCall.init_proj] at h
+  exact h
+
+/-- non-vacuity: the six-call history `HashCallExamples.demoCalls` (server 0 serves, fails with `EPIPE`, refuses the
+retry and the final probe, is evicted; the key is rerouted to server 1; server 0 is brought back) gives rise to six
+abstract events whose environments are `ok / oserror / oserror / oserror / ok / ok`, and `Failover.run` on them ends
+in the same bookkeeping state with the same contact log. -/
+example :
+    (HashCall.eventsOf HashCallExamples.demoCalls
+        (HashCall.runH {} HashCallExamples.cfgStrict prefRoute (HashCall.init [0, 1] 0) 0 HashCallExamples.demoCalls).2).map
+        (fun e => (e.now, e.env 0, e.env 1)) =
+      [(0, .ok, .ok), (1, .oserror, .oserror), (3, .oserror, .oserror), (5, .oserror, .oserror), (6, .ok, .ok), (12, .ok, .ok)] ∧
+    run HashCallExamples.cfgStrict prefRoute (init [0, 1] 0)
+        (HashCall.eventsOf HashCallExamples.demoCalls
+          (HashCall.runH {} HashCallExamples.cfgStrict prefRoute (HashCall.init [0, 1] 0) 0 HashCallExamples.demoCalls).2) =
+      ({ nodes := [1, 0], failed := [], dead := [], lastDeadCheck := 12 },
+       [(.value, [(0, 0, .ok)]), (.raisedServerError 0 .oserror, [(0, 1, .oserror)]),
+        (.raisedServerError 0 .oserror, [(0, 3, .oserror)]), (.raisedServerError 0 .oserror, [(0, 5, .oserror)]),
+        (.value, [(1, 6, .ok)]), (.value, [(0, 12, .ok)])]) :=
+  HashCallExamples.demo_projection
+
+/-- C13 (`HashClient ∘ Client`, no internal bookkeeping error).  In every composed history no call ends in
+`internalError`: every dict `pop` / `del` / lookup of the failover code — including `self.clients[server]` — and every
+`remove_node` finds its key. -/
+theorem C13_hash_no_internal_error (ccfg : Wire.Cfg) (c : Cfg) (route : List Srv → Key → Option Srv) (hlaw : RouteLaw route)
+    (servers : List Srv) (t0 : Time) (calls : List (HashCall.HCall Key)) :
+    ∀ ob ∈ (HashCall.runH ccfg c route (HashCall.init servers t0) 0 calls).2, ob.res ≠ .internalError := by
+  intro ob hob hres
+  obtain ⟨i, hi⟩ := List.getElem?_of_mem hob
+  have hlen := HashCall.runH_length ccfg c route (HashCall.init servers t0) 0 calls
+  have hlt : i < calls.length := by
+    rw [← hlen]
+    exact (List.getElem?_eq_some_iff.mp hi).1
+  have hproj := C13_hash_projection ccfg c route hlaw servers t0 calls
+  have hmem := HashCall.mem_absOuts c calls _ i calls[i] ob (List.getElem?_eq_getElem hlt) hi (by rw [hres]; rfl)
+  simp only at hproj
+  have hout : (HashCall.absRes c ob.res, HashCall.contactsOfObs calls[i].now ob) ∈
+      (run c route (init servers t0) (HashCall.eventsOf calls
+        (HashCall.runH ccfg c route (HashCall.init servers t0) 0 calls).2)).2 := by
+    rw [hproj]; exact hmem
+  have := C13_no_internal_error c route hlaw servers t0 _ _ hout
+  rw [hres] at this
+  exact this rfl
+
+/-- C13 (`HashClient ∘ Client`, both window bounds).  In every composed history whose clock never goes back, for every
+server `s`: among the contacts to `s` during which the inner `Client.call` raised an `OSError` (times `F`,
+chronological — `HashCall.contactLog` is the list of all contacts with the outcomes of the real inner calls), any
+window `[t, t + retry_timeout]` contains at most two; and among those made since the last contact to `s` that
+returned normally, any window `[t, t + dead_timeout]` contains at most `retry_attempts + 2`.  (A composed history has
+no `set_many`, so no extra hypothesis.) -/
+theorem C13_hash_probing_windows (ccfg : Wire.Cfg) (c : Cfg) (route : List Srv → Key → Option Srv) (hlaw : RouteLaw route)
+    (hlt : c.rt < c.dt) (servers : List Srv) (t0 : Time) (calls : List (HashCall.HCall Key))
+    (hch : HashCall.ChronoCalls t0 calls) (s : Srv) :
+    let L := HashCall.contactLog calls (HashCall.runH ccfg c route (HashCall.init servers t0) 0 calls).2
+    (∀ t : Time, countIn t c.rt (oserrTimes s L) ≤ 2) ∧
+    (∀ t : Time, countIn t c.dt (oserrTimes s (sinceLastOk s L)) ≤ c.ra + 2) := by
+  intro L
+  have hproj := C13_hash_projection ccfg c route hlaw servers t0 calls
+  simp only at hproj
+  have hL : L = contactsOf (run c route (init servers t0) (HashCall.eventsOf calls
+      (HashCall.runH ccfg c route (HashCall.init servers t0) 0 calls).2)).2 := by
+    rw [hproj]
+    exact (HashCall.runH_contactLog ccfg c route (HashCall.init servers t0) 0 calls).symm
+  have hchr := HashCall.chrono_eventsOf t0 calls (HashCall.runH ccfg c route (HashCall.init servers t0) 0 calls).2 hch
+  have hns : NoSetManyUnderIgnoreExc c (HashCall.eventsOf calls
+      (HashCall.runH ccfg c route (HashCall.init servers t0) 0 calls).2) :=
+    fun _ e he => HashCall.eventsOf_runCmd calls _ e he
+  rw [hL]
+  exact ⟨(C13_le_two_per_rt_window c route hlaw hlt servers t0 _ hchr hns s).2,
+    (C13_le_ra_plus_two_per_dt_window c route hlaw hlt servers t0 _ hchr hns s).2⟩
+
+/-- non-vacuity: the demo history is chronological, `prefRoute` is a lawful router, and the `OSError` contacts to
+server 0 happen at 1, 3, 5. -/
+example : HashCall.ChronoCalls 0 HashCallExamples.demoCalls ∧ RouteLaw prefRoute ∧
+    HashCallExamples.cfgStrict.rt < HashCallExamples.cfgStrict.dt ∧
+    oserrTimes 0 (HashCall.contactLog HashCallExamples.demoCalls
+      (HashCall.runH {} HashCallExamples.cfgStrict prefRoute (HashCall.init [0, 1] 0) 0 HashCallExamples.demoCalls).2) = [1, 3, 5] :=
+  ⟨by simp [HashCall.ChronoCalls, HashCallExamples.demoCalls], prefRoute_law, by decide, by decide +kernel⟩
+
+end hash
 
 end Failover
